@@ -32,8 +32,9 @@ DTS = [0.002, 0.01, 0.05]
 VARIANTS = {
     'madgwick_imu': [{'gain': 0.033}, {'gain': 0.3}, {'gain': 1.0}],
     'madgwick_marg': [{'gain': 0.041}, {'gain': 0.3}, {'gain': 1.0}],
-    'mahony_imu': [{}, {'k_P': 3.0, 'k_I': 0.05}, {'k_P': 0.5, 'k_I': 0.1}],
-    'mahony_marg': [{}, {'k_P': 3.0, 'k_I': 0.05}, {'k_P': 0.5, 'k_I': 0.1}],
+    'mahony_imu': [{}, {'k_P': 3.0, 'k_I': 0.05}, {'k_P': 0.5, 'k_I': 0.1}, {'k_P': 5.0, 'k_I': 0.001}],
+    'mahony_marg': [{}, {'k_P': 3.0, 'k_I': 0.05}, {'k_P': 0.5, 'k_I': 0.1}, {'k_P': 5.0, 'k_I': 0.001}],     # last: almost pure P, converges fast enough
+                                                                                          # for the quick tier to start it 120-175 degrees away
     'ekf_imu': [{'frame': 'NED'}, {'frame': 'ENU'}, {'frame': 'NED', 'noises': [0.01, 0.09, 0.25]}],
     'ekf_marg': [{'frame': 'NED'}, {'frame': 'ENU'}, {'frame': 'NED', 'noises': [0.01, 0.09, 0.25]}, {'frame': 'ENU', 'magnetic_ref': 'vector'}],
     'ukf': [{}],
